@@ -494,4 +494,29 @@ theorem fastReadTy_refines (skip : Nat → Bytes → FRes Nat) (hsk : SkipRefine
           | _ => simp [hnx] at h
 
 
+
+/-- **object reuse**: for EVERY object the caller holds and every byte string, whenever the standard Read into that
+object succeeds, FastRead into the same object builds the same object -/
+theorem fastReadInto_refines (skip : Nat → Bytes → FRes Nat) (hsk : SkipRefines skip) (P : Prog) (hP : ProgOK P) (sidx : Nat)
+    (cur obj : GoVal) (bs : Bytes) (hB : B256 bs) (h : stdReadInto P sidx cur bs = some obj) :
+    ∃ n, fastReadIntoWith skip P sidx cur bs = .ok (obj, n) ∧ n ≤ bs.length := by
+  unfold stdReadInto at h
+  unfold fastReadIntoWith
+  have hs : P.struct? sidx = P.structs[sidx]? := rfl
+  cases hsd : P.struct? sidx with
+  | none => simp [hsd] at h
+  | some sd =>
+    cases cur <;> simp only [hsd] at h <;> try (cases h; done)
+    rename_i fs
+    obtain ⟨q, hq, hv⟩ := map_some_inv _ _ _ h
+    obtain ⟨fs', r⟩ := q
+    simp only [] at hv
+    subst hv
+    have hsd' : P.structs[sidx]? = some sd := by rw [← hs]; exact hsd
+    obtain ⟨e, _⟩ := fields_refine skip hsk P sd.fields (hP sidx sd hsd') (Std.readTy P.structs bs.length)
+      (fastReadTyWith skip P bs.length)
+      (fun ty b v r => fastReadTy_refines skip hsk P hP bs.length ty b v r) _ bs fs _ fs' r hB hq
+    refine ⟨bs.length - r.length, ?_, by omega⟩
+    simp [e, bind]
+
 end Gen.Fast
